@@ -299,6 +299,8 @@ func runURL(x *ctx, content []byte, rf ref, kind string, control bool, mk func(o
 	feat := []string{"part", "filestore-url", "mutation", kind, "empty_region", fmt.Sprint(rf.size == 0)}
 	if b, err := fs.Get(bg, c); err != nil || !bytes.Equal(b.RawData(), orig) {
 		return eng.V("intact-reference-rejected", "Get", fmt.Sprintf("%s: honest unmodified server, Get = %v", x.id, err), feat...)
+	} else {
+		x.keep("Filestore.Get(before mutation)", b, c, orig, feat)
 	}
 	bh := mk(orig)
 	if bh.redirect != "" {
@@ -320,6 +322,7 @@ func runURL(x *ctx, content []byte, rf ref, kind string, control bool, mk func(o
 		if !intact {
 			return eng.V("corrupt-reference-served", "Get", fmt.Sprintf("%s: Get succeeded although the server does not deliver the referenced bytes", x.id), feat...)
 		}
+		x.keep("Filestore.Get", blk, c, orig, feat)
 	} else {
 		var cre *filestore.CorruptReferenceError
 		if !errors.As(err, &cre) {
